@@ -131,6 +131,7 @@ func (env *httpEnv) putBody(cc *charCase, entries []putEntry) []byte {
 
 func checkC11(c *Ctx) {
 	c11Events(c)
+	c11PermHelpers(c)
 	c.SetRule("one case = one characteristic (every zero-argument constructor of package characteristic, and custom characteristics with random " +
 		"subsets of {pr,pw,ev,hd,wr}) and a sequence of 1–8 operations: local updates, UpdateValueFromConnection, reads with get functions, and PUT " +
 		"/characteristics requests (value and/or ev entries) served by the real handler with a registered session; non-trivial = at least one step was refused by a " +
@@ -517,5 +518,72 @@ func c11Events(c *Ctx) {
 			c.Count(fmt.Sprint("events/", i), true, "stream:events-e2e")
 			c.Trace()
 		}()
+	}
+}
+
+// c11PermHelpers: permission sets built with the package's helper functions stay what they were declared to be, whatever
+// an application does with the result of ANOTHER helper call (append to it, overwrite its elements): a characteristic
+// declared with PermsRead() refuses a controller's write also after a second characteristic got
+// append(PermsReadOnly(), PermWrite).
+func c11PermHelpers(c *Ctx) {
+	helpers := []struct {
+		name string
+		f    func() []string
+		want []string
+	}{
+		{"PermsAll", characteristic.PermsAll, []string{"pr", "pw", "ev"}},
+		{"PermsRead", characteristic.PermsRead, []string{"pr", "ev"}},
+		{"PermsReadOnly", characteristic.PermsReadOnly, []string{"pr"}},
+		{"PermsWriteOnly", characteristic.PermsWriteOnly, []string{"pw"}},
+	}
+	abuse := []struct {
+		name string
+		f    func(p []string) []string
+	}{
+		{"append pw", func(p []string) []string { return append(p, characteristic.PermWrite) }},
+		{"append ev,pw", func(p []string) []string { return append(p, characteristic.PermEvents, characteristic.PermWrite) }},
+		{"overwrite [0]=pw", func(p []string) []string { p[0] = characteristic.PermWrite; return p }},
+		{"reslice to capacity and fill", func(p []string) []string {
+			q := p[:cap(p)]
+			for i := range q {
+				q[i] = characteristic.PermWrite
+			}
+			return q
+		}},
+	}
+	for hi, h1 := range helpers {
+		for _, h2 := range helpers {
+			for ai, ab := range abuse {
+				id := fmt.Sprintf("perm-helpers#%s.%s.%d", h1.name, h2.name, ai)
+				if c.Skip(id) {
+					continue
+				}
+				a := characteristic.NewInt("F1C1")
+				a.Format = characteristic.FormatUInt8
+				a.Perms = h1.f()
+				a.SetValue(1)
+				b := characteristic.NewInt("F1C2")
+				b.Format = characteristic.FormatUInt8
+				b.Perms = ab.f(h2.f())
+				in := map[string]interface{}{"first_characteristic": h1.name + "()", "second_characteristic": ab.name + " on " + h2.name + "()"}
+				if fmt.Sprint(a.Perms) != fmt.Sprint(h1.want) {
+					c.Violate("C11: the permissions of a characteristic changed when another characteristic's permission set was built", id, in, fmt.Sprint(h1.want), fmt.Sprint(a.Perms))
+				}
+				if got := h1.f(); fmt.Sprint(got) != fmt.Sprint(h1.want) {
+					c.Violate("C11: a permission helper returns a different set after the result of an earlier call was modified", id, in, fmt.Sprint(h1.want), fmt.Sprint(got))
+				}
+				// through the enforcement point: a remote write on the first characteristic
+				before := a.Value
+				a.UpdateValueFromConnection(7, &c11Conn{addr: "10.1.1.1:1"})
+				writable := false
+				for _, p := range h1.want {
+					writable = writable || p == "pw"
+				}
+				if !writable && a.Value != before {
+					c.Violate("C11: remote write changed a characteristic without write permission", id, in, fmt.Sprint(before), fmt.Sprint(a.Value))
+				}
+				c.Count(id, hi > 0, "stream:perm-helpers")
+			}
+		}
 	}
 }
